@@ -1,4 +1,140 @@
-import EpsModel.Header
+/-
+  C15 — Variant tags map back to the variant written; foreign tags are rejected.
+-/
+import EpsModel.Lemmas.HeaderL
 namespace Eps.C15
-theorem placeholder : (1 : Nat) = 1 := rfl
+open Eps
+
+/-! ### Written tags map back (round trip of every variant, full-copy reader; the ε-copy
+    counterpart is `C02.decEps_enc`, which covers every sum type as well) -/
+
+/-- Every variant of every sum type (options, bounds, control-flow, derived enums of any arity),
+    with any payload, is read back as the same variant with the same payload. -/
+theorem tag_roundtrip (T : Ty) (i : Nat) (fs : List Val) (hT : T.wf = true) (hv : T.wt (.variant i fs) = true)
+    (pos : Nat) (rest : B) :
+    T.decFull .reader (T.enc (.variant i fs) pos ++ rest) pos
+      = .ok (.variant i fs, rest, pos + (T.enc (.variant i fs) pos).length) :=
+  Ty.framedFull .reader T hT _ hv pos rest (AlignedAll_reader _)
+
+/-! ### Foreign one-byte tags (all 256 byte values are covered: `g` is any byte) -/
+
+theorem option_foreign_full (m : Mode) (t : Ty) (g : UInt8) (hg : 2 ≤ g.toNat) (rest : B) (pos : Nat) :
+    (Ty.option t).decFull m (g :: rest) pos = .err (.invalidTag g.toNat) := by
+  simp only [Ty.decFull]
+  rw [readWord_byte]
+  simp only [Res.bind_ok]
+  obtain ⟨k, hk⟩ : ∃ k, g.toNat = k + 2 := ⟨g.toNat - 2, by omega⟩
+  rw [hk]; rfl
+
+theorem option_foreign_eps (base : Nat) (t : Ty) (g : UInt8) (hg : 2 ≤ g.toNat) (rest : B) (pos : Nat) :
+    (Ty.option t).decEps base (g :: rest) pos = .err (.invalidTag g.toNat) := by
+  simp only [Ty.decEps]
+  rw [readWord_byte]
+  simp only [Res.bind_ok]
+  obtain ⟨k, hk⟩ : ∃ k, g.toNat = k + 2 := ⟨g.toNat - 2, by omega⟩
+  rw [hk]; rfl
+
+theorem bound_foreign_full (m : Mode) (t : Ty) (g : UInt8) (hg : 3 ≤ g.toNat) (rest : B) (pos : Nat) :
+    (Ty.bound t).decFull m (g :: rest) pos = .err (.invalidTag g.toNat) := by
+  simp only [Ty.decFull]
+  rw [readWord_byte]
+  simp only [Res.bind_ok]
+  obtain ⟨k, hk⟩ : ∃ k, g.toNat = k + 3 := ⟨g.toNat - 3, by omega⟩
+  rw [hk]; rfl
+
+theorem bound_foreign_eps (base : Nat) (t : Ty) (g : UInt8) (hg : 3 ≤ g.toNat) (rest : B) (pos : Nat) :
+    (Ty.bound t).decEps base (g :: rest) pos = .err (.invalidTag g.toNat) := by
+  simp only [Ty.decEps]
+  rw [readWord_byte]
+  simp only [Res.bind_ok]
+  obtain ⟨k, hk⟩ : ∃ k, g.toNat = k + 3 := ⟨g.toNat - 3, by omega⟩
+  rw [hk]; rfl
+
+theorem controlFlow_foreign_full (m : Mode) (b c : Ty) (g : UInt8) (hg : 2 ≤ g.toNat) (rest : B) (pos : Nat) :
+    (Ty.controlFlow b c).decFull m (g :: rest) pos = .err (.invalidTag g.toNat) := by
+  simp only [Ty.decFull]
+  rw [readWord_byte]
+  simp only [Res.bind_ok]
+  obtain ⟨k, hk⟩ : ∃ k, g.toNat = k + 2 := ⟨g.toNat - 2, by omega⟩
+  rw [hk]; rfl
+
+theorem controlFlow_foreign_eps (base : Nat) (b c : Ty) (g : UInt8) (hg : 2 ≤ g.toNat) (rest : B) (pos : Nat) :
+    (Ty.controlFlow b c).decEps base (g :: rest) pos = .err (.invalidTag g.toNat) := by
+  simp only [Ty.decEps]
+  rw [readWord_byte]
+  simp only [Res.bind_ok]
+  obtain ⟨k, hk⟩ : ∃ k, g.toNat = k + 2 := ⟨g.toNat - 2, by omega⟩
+  rw [hk]; rfl
+
+/-- The tags the writer emits are exactly the complement of the foreign ones: 0/1 for options,
+    0/1/2 for bounds, 0/1 for control-flow (so `w = r⁻¹`: no written tag is foreign, no foreign tag
+    is written). -/
+theorem written_tags (t b c : Ty) (v : Val) (pos : Nat) :
+    (Ty.option t).enc (.variant 0 []) pos = [0] ∧
+    ((Ty.option t).enc (.variant 1 [v]) pos).head? = some 1 ∧
+    (Ty.bound t).enc (.variant 0 []) pos = [0] ∧
+    ((Ty.bound t).enc (.variant 1 [v]) pos).head? = some 1 ∧
+    ((Ty.bound t).enc (.variant 2 [v]) pos).head? = some 2 ∧
+    ((Ty.controlFlow b c).enc (.variant 0 [v]) pos).head? = some 0 ∧
+    ((Ty.controlFlow b c).enc (.variant 1 [v]) pos).head? = some 1 := by
+  simp [Ty.enc]
+
+/-! ### Foreign pointer-width tags of derived enums -/
+
+theorem variants_foreign_full (m : Mode) : ∀ (vs : Variants) (orig i : Nat) (d : B) (pos : Nat),
+    vs.length ≤ i → vs.decFull m orig i d pos = .err (.invalidTag orig)
+  | .nil, _, _, _, _, _ => by simp [Variants.decFull]
+  | .cons _ _ r, orig, 0, _, _, h => by simp [Variants.length] at h
+  | .cons _ _ r, orig, i+1, d, pos, h => by
+      simp only [Variants.length] at h
+      simp only [Variants.decFull]
+      exact variants_foreign_full m r orig i d pos (by omega)
+
+theorem variants_foreign_eps (base : Nat) : ∀ (vs : Variants) (orig i : Nat) (d : B) (pos : Nat),
+    vs.length ≤ i → vs.decEps base orig i d pos = .err (.invalidTag orig)
+  | .nil, _, _, _, _, _ => by simp [Variants.decEps]
+  | .cons _ _ r, orig, 0, _, _, h => by simp [Variants.length] at h
+  | .cons _ _ r, orig, i+1, d, pos, h => by
+      simp only [Variants.length] at h
+      simp only [Variants.decEps]
+      exact variants_foreign_eps base r orig i d pos (by omega)
+
+/-- A derived (deep-copy) enum with `n` variants rejects every tag word `w ≥ n` (any 64-bit
+    value) with `InvalidTag(w)`, whatever follows, in full-copy mode … -/
+theorem enum_foreign_full (m : Mode) (mt : AdtMeta) (vs : Variants) (w : Nat) (rest : B) (pos : Nat)
+    (hz : mt.zero = false) (he : mt.isEnum = true) (hw : w < 2^64) (hf : vs.length ≤ w) :
+    (Ty.adt mt vs).decFull m (leBytes 8 w ++ rest) pos = .err (.invalidTag w) := by
+  rw [Ty.decFull_adt_enum m mt vs _ pos hz he, readWord_leBytes 8 w rest pos (by omega)]
+  simp only [Res.bind_ok]
+  exact variants_foreign_full m vs w w rest (pos + 8) hf
+
+theorem Ty.decEps_adt_enum (base : Nat) (m : AdtMeta) (vs : Variants) (d : B) (pos : Nat)
+    (h : m.zero = false) (he : m.isEnum = true) :
+    Ty.decEps base (.adt m vs) d pos
+      = (readWord 8 d pos).bind fun (tag, d, pos) => Variants.decEps base vs tag tag d pos := by
+  cases vs with
+  | nil => simp [Ty.decEps, h, he]
+  | cons n f r => cases r <;> simp [Ty.decEps, h, he]
+
+/-- … and in ε-copy mode. -/
+theorem enum_foreign_eps (base : Nat) (mt : AdtMeta) (vs : Variants) (w : Nat) (rest : B) (pos : Nat)
+    (hz : mt.zero = false) (he : mt.isEnum = true) (hw : w < 2^64) (hf : vs.length ≤ w) :
+    (Ty.adt mt vs).decEps base (leBytes 8 w ++ rest) pos = .err (.invalidTag w) := by
+  rw [Ty.decEps_adt_enum base mt vs _ pos hz he, readWord_leBytes 8 w rest pos (by omega)]
+  simp only [Res.bind_ok]
+  exact variants_foreign_eps base vs w w rest (pos + 8) hf
+
+/-- The enum writer emits the variant index as the tag word, and indices of well-typed values are
+    below the number of variants: written tags are never foreign. -/
+theorem enum_written_tag (mt : AdtMeta) (vs : Variants) (i : Nat) (fs : List Val) (pos : Nat)
+    (hz : mt.zero = false) (hv : (Ty.adt mt vs).wt (.variant i fs) = true) :
+    (Ty.adt mt vs).enc (.variant i fs) pos = leBytes 8 i ++ vs.enc i fs (pos + 8) ∧ i < vs.length := by
+  refine ⟨Ty.enc_adt_enum mt vs i fs pos hz, ?_⟩
+  simp only [Ty.wt, Bool.and_eq_true] at hv
+  exact Variants.wt_lt vs i fs hv.2
+
+/-- Non-vacuity: a two-variant enum and a foreign tag. -/
+example : (Variants.cons [65] .nil (.cons [66] (.cons [48] false (.prim (.int .u8)) .nil) .nil)).length ≤ 2 := by
+  simp [Variants.length]
+
 end Eps.C15
